@@ -195,6 +195,12 @@ def _check_dt(plan, ctx):
             via = x.dt.replace(**real_kw)
             if build.cells(via) != got:
                 raise Violation("Vector.dt.replace differs from dt.replace")
+            if all(not isinstance(v, list) for v in kw.values()):
+                for j in [j for j, o in enumerate(objs) if o is not None][:2]:
+                    sc = ctx.call("dt.replace(scalar)", lambda: di.dt.replace(np.asarray(x)[j], **kw))
+                    if not build.same_cell(build.acell(sc, False), want[j]):
+                        raise Violation("dt.replace of a scalar differs from the one-element vector result",
+                                        got=build.acell(sc, False), want=want[j], kw=kw)
     elif op in ("to_string", "roundtrip"):
         fmt = plan["format"]
         out = ctx.call("dt.to_string", di.dt.to_string, x, fmt)
@@ -212,6 +218,10 @@ def _check_dt(plan, ctx):
         via = x.dt.to_string(fmt)
         if build.cells(via) != got:
             raise Violation("Vector.dt.to_string differs from dt.to_string")
+        for j in [j for j, o in enumerate(objs) if o is not None][:2]:
+            sc = ctx.call("dt.to_string(scalar)", di.dt.to_string, np.asarray(x)[j], fmt)
+            if str(sc) != (want[j] or ""):
+                raise Violation("dt.to_string of a scalar differs from the one-element vector result", got=sc, want=want[j])
         if op == "roundtrip":
             unambiguous = all(o is None or o.year >= 1000 for o in objs) and (
                 fmt in ("%Y-%m-%d", "%d.%m.%Y") and unit == "D"
@@ -226,6 +236,11 @@ def _check_dt(plan, ctx):
             wb = [None if o is None else build.acell(o, False) for o in objs]
             if len(gb) != n or not all(build.same_cell(a, b) for a, b in zip(gb, wb)):
                 raise Violation("from_string does not invert to_string", format=fmt, got=gb, want=wb, strings=want)
+            for j in [j for j, w in enumerate(want) if w is not None][:2]:
+                sc = ctx.call("dt.from_string(scalar)", di.dt.from_string, want[j], fmt)
+                if not build.same_cell(build.acell(sc, False), wb[j]):
+                    raise Violation("dt.from_string of a scalar differs from the one-element vector result",
+                                    got=build.acell(sc, False), want=wb[j], string=want[j])
             ctx.cls("roundtrip_checked")
     if build.snap_array(x) != before:
         raise Violation("a dt function changed its argument")
